@@ -234,6 +234,29 @@ def x_deferred(ctx, case):
 SUBCHECKS["deferred"] = x_deferred
 
 
+def x_flaky(ctx, case):
+    """A test whose first run records a failed expectation (or fails) and whose later runs are clean: runs 2 and 3
+    of the same instance repeat each other - and are what a clean run is."""
+    program = {"su_pre": [["cleanup", "c1", []]], "su": [], "td": [], "td_pre": [], "scratch": {},
+               "test": [["first_run_only", case["first"]]]}
+    if case.get("force_attr"):
+        program["force_attr"] = case["force_attr"]
+    env = programs.Env(program)
+    the_case = programs.build_case(program, env, programs.runner_factory_for(case.get("runner")))
+    outs = []
+    for attempt in range(3):
+        log = recorders.Log()
+        programs.execute(program, lambda: recorders.ExtRecorder(log), env=env, case=the_case)
+        env.reset_for_rerun()
+        outs.append([n for n in log.names() if n in recorders.OUTCOMES])
+    ctx.check(outs[1] == outs[2] == ["addSuccess"] and outs[0] == [case["want_first"]], "rerun.same-sequence",
+              lambda: {"outcomes of three runs (first one flaky)": outs, "case": case})
+    return True
+
+
+SUBCHECKS["flaky"] = x_flaky
+
+
 def run(ctx):
     rng = ctx.rng
     n = 0
@@ -267,6 +290,34 @@ def run(ctx):
                                                           "beh2": b2, "body": body}})
     ctx.note_space("2 cleanups x 6 registration sites each x %d behaviours each x 3 test-method "
                    "behaviours" % len(behs), n)
+    n = 0
+    for force_attr in (None, "class_false"):
+        for runner in (None, "sync", "async"):
+            for first, want in (([["expect", "<<E1>>", False, []]], "addFailure"), ([["raise", "error", "<<R1>>"]], "addError"),
+                                ([["expect", "<<E1>>", False, []], ["expect", "<<E2>>", True, []]], "addFailure")):
+                if ctx.mine():
+                    n += 1
+                    ctx.execute("flaky", {"first": first, "want_first": want, "force_attr": force_attr, "runner": runner})
+    ctx.note_space("flaky first run (failed expectation / error) then two clean runs of the same instance: 2 x 3 runners "
+                   "x 3", n)
+    # a cleanup raising an error whose message holds a lone surrogate, among other cleanups and a patch
+    n = 0
+    for where in ("c_first", "c_mid", "su", "test", "td"):
+        for runner in (None, "sync", "async"):
+            if not ctx.mine():
+                continue
+            n += 1
+            r = ["raise", "surrogate", "<<S1>>"]
+            prog = {"scratch": {"a": 0}, "su_pre": [["cleanup", "c1", [r] if where == "c_first" else []],
+                                                    ["patch", "a", "patched"],
+                                                    ["cleanup", "c2", [r] if where == "c_mid" else []],
+                                                    ["cleanup", "c3", []]],
+                    "su": [], "test": [["cleanup", "c4", []]], "td_pre": [], "td": [["cleanup", "c5", []]]}
+            if where in ("su", "test", "td"):
+                prog[where].append(r)
+            ctx.execute("prog", {"prog": prog, "runner": runner} if runner else {"prog": prog})
+    ctx.note_space("an error whose message holds a lone surrogate, raised at 5 places among cleanups and a patch x 3 "
+                   "runners", n)
     # exceptions deriving from BaseException directly (asyncio.CancelledError, GeneratorExit style), at every
     # stage, with cleanups registered before and around them, a patch and keyword-argument cleanups; every runner
     n = 0
